@@ -3,7 +3,7 @@
  * integer functors are checked bit-precisely on the range where the C operation is defined. */
 #include "spec/abi.h"
 #include "spec/mathuf.h"
-#if defined(VERIF_UF) && !defined(VERIF_NATIVE) && !defined(VERIF_NATIVE_C)
+#if defined(VERIF_FUF) && !defined(VERIF_NATIVE) && !defined(VERIF_NATIVE_C)
 /* int % int of the code (rendered MOD_i by cxx2c) and of the reference: one uninterpreted function (two 32-bit dividers do not compare in SAT) */
 #undef MOD_i
 int __CPROVER_uninterpreted_modi(int, int);
